@@ -227,7 +227,7 @@ class ClosedFormIASolver(IASolverBaseClass):
         # the solve method.
         self._Ns = np.array(Ns)
 
-        if self._use_best_init is True:
+        if self._use_best_init:
             # xxxxx Case when the best solution should be used xxxxxxxxxxxx
             best_sum_capacity = 0
             all_initializations = self._calc_all_F_initializations(Ns[0])
